@@ -104,977 +104,1040 @@ line2`, @tag( 4294967296
 )@tag( 7  )
 body ,
 }")).
-Eval vm_compute in ("<<<M320>>>" ++ check (runes_of_ascii "// @lengthOf(
-MetaData BodyLength{ u8x	u128 `a\` , }packet
-    // c
-    stringy  { } packet// " ++ [128512]%N ++ runes_of_ascii " emoji
-a1
-{i8 f32a
-    `
-`	,repeat  i64 len,@calculatedFrom( ""\" ++ [233]%N ++ runes_of_ascii """ ) string
-    leftPad
-`line1
-line2` , match a1
-as float { [ 007 , 3 ] : repeatCount, 3 /// triple
-: MetaDataX ""CRC32""
-    /// triple
-    : u128
-    // trailing space 
-    , [ ""a\""b"" ,""// no comment""
-]
-:roots,""\" ++ [233]%N ++ runes_of_ascii """: // c
-A}// packet A { u8 x, }
-, zchar[ 42]Pad,/// triple
-@calculatedFrom( """ ++ [233]%N ++ runes_of_ascii "t" ++ [233]%N ++ runes_of_ascii """) // `tick` ""quote"" 'q'
+Eval vm_compute in ("<<<M136>>>" ++ check (runes_of_ascii "//	t
+packet MetaDataX  {
+@leftPad ( ) repeat
+float64 asx, }MetaData
+Foo { // a // b
+char[65535 ]
+    Pad ,} packet
+    body// 50% %s
+{
 match
-    chars	as// trailing space 
-string_
-{3 :
-options1 , } , uint32
-packetx
-    `` ,
-@tag(// 50% %s
-42) @tag( 1 ) /// triple
-@calculatedFrom( """ ++ [128512]%N ++ runes_of_ascii """ )
-_x`// not a comment` ,}root packet repeatCount {
-@leftPad (
-) char[ 0] x_y_z@calculatedFrom(""1"" //x
-),
-@rightPad ( ) char[] int
-, f64 // c
-asx ,	repeat Pad
-, match i64_
-as
-roots{
-[ ""1""
-    , ""packet""]
-    /// triple
-    :a1,""`tick`""  :
-    // c
-    trueish  , [3 ,	""\n"" // `tick` ""quote"" 'q'
-, ""`tick`"", ""it's"" , 10 ,
-""a\""b"" // a // b
-, ""CRC32"" // a // b
-]
-    //	t
-    : As, [ 10
-,
-10 ]: options1
-, ""CRC32"": a1
-,65535 :u
-    , // c
-} , @calculatedFrom( ""x y"" )
-@tag(255
-    )@tag( 1 )// c
-zchar[1 ] crc // " ++ [27880; 37322]%N ++ runes_of_ascii "
-`
-` , repeat u16 tag `crlf
-line` ,
-@leftPad (' ') roots
-@calculatedFrom(
-    //	t
-    """" )
-    ,}
-
-")).
-Eval vm_compute in ("<<<M237>>>" ++ check (runes_of_ascii "options
-    { }
-packet
-x{ repeat // trailing space 
-rootA {
-    repeat string Header , } ,
-chars	float , @tag(65535
-)
-x_y_z { repeat	T`// not a comment` ,string string_ /// triple
-@lengthOf( x_y_z) `say ""hi""`, Header len  ``,	string lengthOf , }, @tag(  0123456789
-)match crc
-as BodyLength{ ""\" ++ [233]%N ++ runes_of_ascii """	:	repeatCount 65535//x
-: i8i8 ,
-0  : A  ,
-    [ ""a	b"" ,  7	] :packetx , }, @lengthOf(charz	) match
-    body as uint8x{// 50% %s
-00:	stringy
-    [007 , ""`tick`"" // 50% %s
-, ""\n"" ]	:
-T [ ""// no comment"", ""a\\""] : float , [ 10
-] : //x
-A , ""a	b"": //	t
-roots	}
-    , pack { match // a // b
-Pad as
-    calculatedFrom { 255
-    :string_""" ++ [28040; 24687]%N ++ runes_of_ascii """
-    :  i64_,}  , // " ++ [27880; 37322]%N ++ runes_of_ascii "
-uint32  matchKey@calculatedFrom(
-    ""1""
-    // 50% %s
-    ) ,len leftPad , repeat MetaDataX{ i64
-// " ++ [128512]%N ++ runes_of_ascii " emoji
-//
-len , }
-    ,
-    } ,char[]tag
-// packet A { u8 x, }
+asx as charz
+{// `tick` ""quote"" 'q'
+10 : u8x ,	""it's"" : leftPad ,3 :
+metadata
+// trailing space 
 //x
-@calculatedFrom( ""packet"" )
-// `tick` ""quote"" 'q'
-// a // b
-`line1
-line2`, float , uint8x
-    @lengthOf(
-crc )
-    `it's`,
-    @tag(	007 )
-float32 tag @calculatedFrom(""" ++ [233]%N ++ runes_of_ascii "t" ++ [233]%N ++ runes_of_ascii """) , }
+,
+    ""it's""
+:
+x,
+    [ 65535,""" ++ [233]%N ++ runes_of_ascii "t" ++ [233]%N ++ runes_of_ascii """ ] :u128
+    ,
+10:// @lengthOf(
+len } ,
+repeat f32 rootA `` , // 50% %s
+@leftPad (
+    //
+    ' ' ) repeat i64
+    BodyLength // c
+,repeatCount {i16 crc @lengthOf( u128 ) ,} , u16// " ++ [27880; 37322]%N ++ runes_of_ascii "
+u @lengthOf(f32a)`// not a comment` ,// trailing space 
+len
+    { match Logon as // @lengthOf(
+Foo { """ ++ [233]%N ++ runes_of_ascii "t" ++ [233]%N ++ runes_of_ascii """
+:stringy,10
+: msg_type ,//	t
+[""\n""
+    , ""`tick`""
+, ""abc""	,
+""""
+    ,	007	,  1
+    , ""a\""b""  ] :
+i64_ // packet A { u8 x, }
+, 255
+    //x
+    : T ,""{,}"": f32a }  , string
+    tag
+@lengthOf( Z9_ ) ,
+    // a // b
+    u32 charz `crlf
+line`
+, u8x
+@lengthOf(/// triple
+rootA  )  ,
+} , float	, int8  repeatCount @lengthOf(f32a )
+    `crlf
+line` , zchar[
+    // packet A { u8 x, }
+    7 // a // b
+] BodyLength
+    @lengthOf( string_// a // b
+)
+    ,} packet u128 {	x`// not a comment`  , }//
+packet
+x { A  `doc`
+, Packet@calculatedFrom(// `tick` ""quote"" 'q'
+""\" ++ [233]%N ++ runes_of_ascii """)	`say ""hi""` ,
+repeat string asx
+,
+@lengthOf(	MetaDataX ) repeat char[ 4294967296 //
+]
+    string_`u8 x,` ,
+    @lengthOf( charz
+) char[ 0123456789	] f32a  `say ""hi""`
+,
+}
 ")).
-Eval vm_compute in ("<<<M1691>>>" ++ check (runes_of_ascii "  // top
-    options
-// c0
+Eval vm_compute in ("<<<M1925>>>" ++ check (runes_of_ascii "
+options{
+	}
+root 
+packet
+    tag	{
+	@calculatedFrom(
 
+    // @lengthOf(
+    ""packet"") u128 @lengthOf(
+zchar 
+)
+
+    , }  packet
+    _x
 	{ 
-// c1
-uint8x  
-      // c2
-=
-	    // c3
-	007
-    // c4
+@calculatedFrom(
+    ""a\\"")	//
+	@rightPad(
 
-;
-// c5
-    lengthOf
-// c6
+    ' ' )
+	As
+, zchar // c
+	@calculatedFrom(
 
-=
-	    // c7
+    """ ++ [233]%N ++ runes_of_ascii "t" ++ [233]%N ++ runes_of_ascii """ )
+`tab	here` // trailing space 
+	, 
+@tag( 007
+	)
 
-	i8 
-        // c8
-		; 
-// c9
-  	} 
-// c10
-packet 
-// c11
-	i64_ 
-  // c12
-	{ 
-// c13
+    @lengthOf(  //	t
+    zchar  )	// packet A { u8 x, }
+    string
+crc 
+,
 
-@calculatedFrom( 
+string u128
+	// c
+    @calculatedFrom(
 
-    // c14
-    ""1"" 
-
-    // c15
-
-) 
-// c16
-    @tag( 
-// c17
-
-	3 
-
-// c18
-	) 
-
-    // c19
-
-@lengthOf(  
-  // c20
-
-rootA
-// c21
-)  
-      // c22
-    repeat  
-      // c23
-
-int8
-
-// c24
-  Packet
-    // c25
-    `tab	here`  
-      // c26
+    ""packet""
+//
+// `tick` ""quote"" 'q'
+  ) // c
 
 ,
-	// c27
-    	}
-    // c28
+	repeat
+uint64
+asx,	@lengthOf( 
+zchar
+) lengthOf
+	{
+string 
+trueish `// not a comment`
+    ,}
+, 
 
-packet 
-        // c29
-	_x
-// c30
-	{ 
-    // c31
-	matchKey 
-// c32
-  x 
-    // c33
-	`" ++ [28040; 24687; 31867; 22411]%N ++ runes_of_ascii "`
-// c34
+// trailing space 
+		// `tick` ""quote"" 'q'
+  @tag(
+0)
+u128 
+{
+repeat
+f64  /// triple
+    crc
+
+`` ,  char[ 3
+
+    ]  Foo`crlf
+line` 
+,
+repeat
+
+//x
+
+// @lengthOf(
+float	uint8x  ,char[  10
+]	msg_type
+    `u8 x,`
+    , } // packet A { u8 x, }
 	,
 
-    // c35
-		int32 
-	    // c36
-  	calculatedFrom 
-    // c37
+    uint64
 
-	`100% of %d` 
-// c38
-	, 
-        // c39
-    @lengthOf( 
-	// c40
-  	trueish
-// c41
-) 
-  // c42
-  Packet
+string_ ,
 
-// c43
+packetx 
+matchKey ,// 50% %s
+  @leftPad	(  ' '
+
+) repeat
+zchar[ 	 // @lengthOf(
+
+255] Z9_ , 
+}
+    MetaData
+    crc
+
+    {  calculatedFrom
+body
+`// not a comment` ,  i64_ i8i8,
+	o
+
+options1	`u8 x,` 
 ,
-	    // c44
-  repeat 
 
-// c45
-  	f32
-    // c46
-
-o
-
-// c47
-    	,
-    // c48
-	  }
-    // c49
+char[
+    10
+	] pack
+,
+	}
+    // a // b
 ")).
-Eval vm_compute in ("<<<M1724>>>" ++ check (runes_of_ascii "root
-packet u8x {
-@calculatedFrom(  ""it's""
+Eval vm_compute in ("<<<M1477>>>" ++ check (runes_of_ascii "
+options {
 
-    )
+LittleEndian=true
 
-zchar[ 007
-]Logon  ,	@rightPad( 
-' '
-	) @calculatedFrom(
-""\n"")
-    @lengthOf(
-	Header )	repeat 
-zchar[ 0]
-options1
+    ;
+StringPrefixLenType = u8
+	;
+    ArrayPrefixLenType
+=
+    u8 
+;
 
-,
-    // " ++ [27880; 37322]%N ++ runes_of_ascii "
-  	// `tick` ""quote"" 'q'
-	@lengthOf( i8i8
+FixedStringPadFromLeft=true;
 
-) 
-@lengthOf( repeatCount
+    FixedStringPadChar	= '0'; } packet Logon	{	repeat 
+i8 Ref
+    ,	@rightPad
+	( 
+'0')
 
-    )
+    char[
+
+8 
+]msgKind , 
+repeat InOrderid72
+    { u8 Side2
+	, uint32
+Qty
+, repeat
+InPrice27
+{
+	repeat
+char[ 
+4
+]
+Acct , u64  sym  ,
+
+} ,
 
     zchar[
+    4 ]
+	clOrdID,
+int16
 
-    65535
-] packetx `doc`
+    lastPx,
 
-,	uint32
+InAcct22 {repeat
+char[
+    3
+	]
 
-Foo 
-@calculatedFrom(""1""
+OrderId ,	}
 
-    ) ,
-matchKey
-, int16
-Header,
-}	options
-    {
-x
+,
 
-=7}
-MetaData 
-	    // " ++ [27880; 37322]%N ++ runes_of_ascii "
-		// `tick` ""quote"" 'q'
-  string_ {
-trueish trueish`it's` 
-,  char[4294967296]
-x //x
-	, 
-    // a // b
+    },  int64 Px	, }
 
-  string u `100% of %d` ,
-f32
-	stringy
-`// not a comment`, 
-  // `tick` ""quote"" 'q'
-string
-	BodyLength , // a // b
-}options
-
-    {// @lengthOf(
-
-	Logon 
-=	10
-roots	=  uint8
-
-;
-
-float=
-""a\\""
-;
-Header
-=""CRC32"" ;  }
-")).
-Eval vm_compute in ("<<<M344>>>" ++ check (runes_of_ascii "// a // b
 packet
-    rootA	{ @tag( 0 ) string falsey @calculatedFrom( ""// no comment"" ) ,
-u32 string_ ,
-} packet Header {
-    //	t
-    repeat // c
-zchar[10// " ++ [27880; 37322]%N ++ runes_of_ascii "
-] Header`" ++ [28040; 24687; 31867; 22411]%N ++ runes_of_ascii "`
+	Fill
+{ uint16
+
+Qty,
+
+repeat
+char[ 1
+] 
+Flags
+
     ,
-}root
-    packet// trailing space 
-charz
-    { @tag(42 ) f32 Z9_ // packet A { u8 x, }
-@calculatedFrom(
-""a\""b"")	`it's`
-    , @calculatedFrom( ""\" ++ [233]%N ++ runes_of_ascii """ )match rootA as
-    rootA
-{ """ ++ [28040; 24687]%N ++ runes_of_ascii """ :
-    //	t
-    x 7//
-:charz }
-    ,// c
-int64
-    metadata @calculatedFrom( """ ++ [233]%N ++ runes_of_ascii "t" ++ [233]%N ++ runes_of_ascii """ ) ,match i8i8 as i64_ { 3 : Logon
-    , [
-7 , """ ++ [28040; 24687]%N ++ runes_of_ascii """ ]: repeatCount
-    // `tick` ""quote"" 'q'
-    , ""\" ++ [233]%N ++ runes_of_ascii """ : msg_type//
-, }
+	i8 Ref,}	packet
+
+Logout
+	{ @leftPad
+(
+
+'0' )
+    char[
+
+3
+
+    ]
+
+x
+,  int8
+	f1 
+,  Logon
+    ,
+
+uint16	venue ,
+
+    zchar[ 2]Px ,
+}	packet
+	Reject {	}
+    root packet
+Leg
+	{
+
+    Fill  ,	u16 msgKind,	match 
+msgKind	as	Body
+
+{
+[
+
+182
+
+,83	]
+: 
+Fill  , 199	:  Reject
+,  137 : 
+Logout
+,
+
+35
+:
+    Logon ,
+
+    }
+	,u32
+    lastPx
+
+@calculatedFrom(""CR\
+C32""
+)  ,
+	}
+")).
+Eval vm_compute in ("<<<M1728>>>" ++ check (runes_of_ascii "packet i8i8 {
+    // trailing space 
+    // " ++ [27880; 37322]%N ++ runes_of_ascii "
+    MetaDataX @lengthOf(chars) `" ++ [233]%N ++ runes_of_ascii "`,// 50% %s
+    char[] u128 @lengthOf(u8x),
+    @lengthOf(T)
+    float64 repeatCount,
+    @tag(00)
+    MetaDataX,
+    // a // b
+    // trailing space 
+    uint64 chars `tab	here`,
+    string_ @lengthOf(As) ``,
+    zchar[00] asx @lengthOf(metadata) `line1
+    line2`,
+    @lengthOf(charz)
+    charz f32a `" ++ [28040; 24687; 31867; 22411]%N ++ runes_of_ascii "`,
+    @rightPad('\x00')
+    repeat BodyLength tag,
+}
+
+packet repeatCount {
+    crc stringy,
+}
+
+options {
+    zchar = char[];
+    options1 = false
+    repeatCount = ""a	b""
+    body = ""`tick`""
+}
+
+// a // b
+//x
+MetaData MetaDataX {
+    Pad repeatCount `u8 x,`,
+    char[42] f32a ``,
+    _x Z9_,
+}
+
+packet Logon {
+    @tag(007)
+    o {
+        char Packet @lengthOf(repeatCount),
+    },
+}// a // b")).
+Eval vm_compute in ("<<<M1155>>>" ++ check (runes_of_ascii "options { uint8x
+    // c2
+= // c3
+007 // c4
+;
+    // c5
+lengthOf // c6
+= // c7
+i8 ;
+    // c9
+}
+    // c10
+packet i64_ // c12
+{ // c13
+@calculatedFrom( // c14a
+  // c14b
+""1"" // c15a
+  // c15b
+) // c16
+@tag( // c17
+3 // c18a
+  // c18b
+)
+    // c19
+@lengthOf( // c20a
+  // c20b
+rootA
+    // c21
+) // c22a
+  // c22b
+repeat int8 Packet // c25
+`tab	here` // c26
+, // c27a
+  // c27b
+} // c28
+packet // c29
+_x { // c31a
+  // c31b
+matchKey // c32
+x // c33a
+  // c33b
+`" ++ [28040; 24687; 31867; 22411]%N ++ runes_of_ascii "`
+    // c34
+, // c35
+int32
+    // c36
+calculatedFrom
+    // c37
+`100% of %d` ,
+    // c39
+@lengthOf( // c40a
+  // c40b
+trueish // c41a
+  // c41b
+) // c42
+Packet , repeat f32 o
+    // c47
+, // c48
+}
+    // c49
+")).
+Eval vm_compute in ("<<<M1946>>>" ++ check (runes_of_ascii "
+
+  options{charz
+= false
+	;
+Z9_
+
+    =  ""\" ++ [233]%N ++ runes_of_ascii """
+
+    ;// c
+}
+options  {falsey=char[];
+
+    }packet metadata
+
+{
+
+    @tag( 4294967296
+)  match 
+int as float { [0
+
+,
+
+    0123456789
+    ,	42
+,
+    7 ,
+
+""a\""b""
+
+, 7 
+]
+
+: zchar
+
+    , ""1"":  options1 
+
     //
-    ,
-@lengthOf( Logon
-) repeat
-    leftPad  BodyLength
-,	repeat//	t
-uint8x `
+    // " ++ [128512]%N ++ runes_of_ascii " emoji
+      ,
+},
+
+    @tag(
+	10 ) match 
+msg_type
+as	Foo
+
+{  ""a	b"":rootA, 
+65535	:	roots /// triple
+	,
+00: 	 // `tick` ""quote"" 'q'
+    trueish
+,
+
+    ""\" ++ [233]%N ++ runes_of_ascii """
+:
+    MetaDataX	, 
+	    //x
+  // 50% %s
+    	00
+    :
+	Logon ,
+	}
+,repeat
+
+    len
+
+packetx
+, @lengthOf(
+    Foo) 
+len
+	`two words`	,
+    roots ,
+}  //x
+")).
+Eval vm_compute in ("<<<M1410>>>" ++ check (runes_of_ascii "packet charz {
+    repeat i64_,
+    trueish {
+        repeat _x,
+        repeatCount,
+        repeat u16 matchKey `
+        `,
+        trueish @lengthOf(Z9_),
+    },
+    zchar[3] body,
+    @rightPad(' ')
+    body packetx `{ , }`,// packet A { u8 x, }
+    repeat matchKey {
+        uint8 metadata ``,
+        trueish @calculatedFrom(""abc""),
+    },
+    @lengthOf(packetx)
+    int32 uint8x `tab	here`,
+    @rightPad()
+    @rightPad()
+    f32a,
+    tag _x `a\`,
+}
+
+packet a1 {
+    @tag(4294967296)
+    repeat f32 a1 `line1
+    line2`,
+}")).
+Eval vm_compute in ("<<<M1958>>>" ++ check (runes_of_ascii "packet BodyLength {
+}
+
+packet tag {
+    repeat Logon {
+        u @calculatedFrom(""// no comment"") `crlf
+                line`,
+        char u8x,
+        uint32 uint8x,
+    },
+}
+
+packet T {
+    float32 Z9_,
+    @lengthOf(pack)
+    @calculatedFrom(""`tick`"")
+    @lengthOf(u8x)
+    u {
+        // `tick` ""quote"" 'q'
+        match repeatCount as u {
+            ""// no comment"" : packetx,
+            //	t
+            1 : falsey,
+        },
+        Z9_ @calculatedFrom("""") `doc`,
+    },
+}/// triple")).
+Eval vm_compute in ("<<<M135>>>" ++ check (runes_of_ascii "packet	repeatCount {
+@tag(
+7 )
+    match
+T as
+    i64_ {
+""" ++ [233]%N ++ runes_of_ascii "t" ++ [233]%N ++ runes_of_ascii """:/// triple
+body,
+    }
+,@lengthOf( crc ) float64 body  `u8 x,` , repeat // a // b
+rootA //	t
+{  int16 x_y_z`two words` // " ++ [27880; 37322]%N ++ runes_of_ascii "
+, zchar[  4294967296
+    // @lengthOf(
+    ] trueish`two words` ,Pad@lengthOf(	Pad )  `// not a comment` ,  } ,
+tag string_
+    , @lengthOf( len )
+    // packet A { u8 x, }
+    @tag(255 ) @lengthOf(
+    // " ++ [27880; 37322]%N ++ runes_of_ascii "
+    Logon
+)int
+, Foo @lengthOf( leftPad )`
 ` , }
 ")).
-Eval vm_compute in ("<<<M1344>>>" ++ check (runes_of_ascii "// top
-packet // c0a
-  // c0b
-u128
-    // c1
-{ // c2a
-  // c2b
-u8
-    // c3
-a ,
-    // c5
-} // c6a
-  // c6b
-root // c7a
-  // c7b
-packet // c8a
-  // c8b
-Msg // c9
-{ // c10a
-  // c10b
-u8
-    // c11
-k // c12a
-  // c12b
-, u24 // c14a
-  // c14b
-{ // c15
-u8 // c16a
-  // c16b
-Hi
-    // c17
-, u16 // c19
-Lo , // c21
-} , // c23a
-  // c23b
+Eval vm_compute in ("<<<M297>>>" ++ check (runes_of_ascii "packet uint8x{ @calculatedFrom(""" ++ [233]%N ++ runes_of_ascii "t" ++ [233]%N ++ runes_of_ascii """)int16 x_y_z
+// trailing space 
+//x
+,repeatCount , Logon  { repeat // c
+i8 Packet //
+`// not a comment`
+, } , @rightPad (  '0'// trailing space 
+)string msg_type
+, @calculatedFrom( ""`tick`"")
 repeat
-    // c24
-i24
-    // c25
-{ // c26
-u32
-    // c27
-q
-    // c28
-, // c29
-} // c30
-, // c31
-u128 // c32
-, // c33
-u16 // c34a
-  // c34b
-float32x , // c36
-string // c37a
-  // c37b
-s // c38a
-  // c38b
-, // c39a
-  // c39b
-} // c40a
-  // c40b
-")).
-Eval vm_compute in ("<<<M156>>>" ++ check (runes_of_ascii "  MetaData
-T { char[ 0123456789 ] rootA
-`line1
-line2` , i32	Logon
-,rootA
-asx ,} root/// triple
-packet
-    Header { uint32
-len
-    @lengthOf( u ) `
-` , repeat
-    char MetaDataX/// triple
-`" ++ [28040; 24687; 31867; 22411]%N ++ runes_of_ascii "` ,
-    uint8x @lengthOf( zchar) // @lengthOf(
-`u8 x,`
-// " ++ [27880; 37322]%N ++ runes_of_ascii "
-// packet A { u8 x, }
-, uint8
-Z9_,
-    @lengthOf( u128 ) @lengthOf(
-MetaDataX )
-@tag( 0123456789
-) Logon @lengthOf(
-    /// triple
-    body ),	}  options { Z9_
-= uint32; options1 = '\x00' } options {Foo  = ""// no comment"" ; }
-packet
-    float
-{
-}")).
-Eval vm_compute in ("<<<M1765>>>" ++ check (runes_of_ascii "
-
-  packet
-
-    i64_
-{ @calculatedFrom( 
-""a	b"" ) match
-Logon
-as
-	packetx {  10 
-: rootA	""it's""
-
-    : BodyLength,
-
-    [ """ ++ [28040; 24687]%N ++ runes_of_ascii """, 
-3 
-] 
-:
-
-roots[
-	// packet A { u8 x, }
-      ""\" ++ [233]%N ++ runes_of_ascii """  ]
-	:	rootA
-
-,""{,}""
-
-:
-	chars
-
-    ,  [	""" ++ [28040; 24687]%N ++ runes_of_ascii """
-
-] 
-:
-
-    pack,  },
-    }
-
-    MetaData
-
-    trueish { u64  uint8x  //
-  `say ""hi""`
-
-    , string uint8x`{ , }` ,
-    BodyLength 
-uint8x 
-      //x
-
-	// " ++ [27880; 37322]%N ++ runes_of_ascii "
-  	`{ , }`
-,
-char[] pack	`u8 x,`,// `tick` ""quote"" 'q'
-  } ")).
-Eval vm_compute in ("<<<M1918>>>" ++ check (runes_of_ascii "options {
-    LittleEndian = false;
-    StringPrefixLenType = u16;
-    FixedStringPadFromLeft = true;
-    FixedStringPadChar = '0';
-}
-
-packet Fill {
-}
-
-root packet Order {
-    repeat Fill,
-    char[] clOrdID,
-    @rightPad('\x00'	)
-    char[4] lastPx,
-    char[] OrderId,
-    int8 tag7,
-    u8 f1,
-    u16 count @lengthOf(Body),
-    match f1 as Body {
-        [159, 49] : Fill,
-    },
-    u16 Tail @calculatedFrom(""CRC32""),
-}")).
-Eval vm_compute in ("<<<M253>>>" ++ check (runes_of_ascii "packet // a // b
-u8x  {// trailing space 
-repeat roots{ zchar[ 42
-]
-// 50% %s
-// a // b
-u@lengthOf( i64_)  `line1
-line2`
-, f64 Packet
-`` , zchar[
-    4294967296 ]
-msg_type ,
-}, }root packet rootA{
-    @calculatedFrom( ""// no comment""
-)  @calculatedFrom(// " ++ [128512]%N ++ runes_of_ascii " emoji
-""" ++ [233]%N ++ runes_of_ascii "t" ++ [233]%N ++ runes_of_ascii """ ) match	body
-    as Foo
-    /// triple
-    {  10 :
-a1} , @tag( 42 )@calculatedFrom( ""1"" )
-repeat int64 float  `u8 x,` ,}
-")).
-Eval vm_compute in ("<<<M1360>>>" ++ check (runes_of_ascii "options {
-    LittleEndian = true;
-    StringPrefixLenType = u16;
-    ArrayPrefixLenType = u16;
-    FixedStringPadFromLeft = true;
-    FixedStringPadChar = '0';
-}
-packet Leg {
-    u16 Flags,
-    u8 price,
-}
-packet Quote {
-    uint16 count,
-    InNote89 {
-        repeat Leg,
-    },
-}
-root packet Ack {
-    char[3] price,
-    u64 sym,
-    zchar[1] Tail,
-}
-")).
-Eval vm_compute in ("<<<M1551>>>" ++ check (runes_of_ascii "options{
-    len=
-00
-    ;
-//	t
-	// packet A { u8 x, }
-		charz
-	= zchar[3 ]	//
-;  Pad
-
-    =
-    255  ;falsey=	""" ++ [28040; 24687]%N ++ runes_of_ascii """
-} root
-    packet
-	repeatCount
-
-{char[
-4294967296  ]x_y_z
-@lengthOf( 
-string_
-)
-
-, @calculatedFrom( 
-""packet"" )  @tag( 
-4294967296	) 
-float32 
-asx
-
-@lengthOf(x_y_z	), u64
-
-    zchar
-
-,
-    }")).
-Eval vm_compute in ("<<<M94>>>" ++ check (runes_of_ascii "packet BodyLength{ }
-    MetaData Z9_{ // c
-Z9_ _x
-    , }	packet
-float
-{@tag(
-    42 )
-@calculatedFrom(// `tick` ""quote"" 'q'
-""// no comment"")
-    char[
-    42
-]	packetx
-    `it's`
-, } MetaData body{  uint16 zchar `" ++ [233]%N ++ runes_of_ascii "` // " ++ [27880; 37322]%N ++ runes_of_ascii "
-, i32 Pad`" ++ [28040; 24687; 31867; 22411]%N ++ runes_of_ascii "`
-,i8 Header
-,  u16 u128 , i32 u, }
-")).
-Eval vm_compute in ("<<<M292>>>" ++ check (runes_of_ascii "
-packet len{
-    // @lengthOf(
-    } root packet stringy
+Z9_// " ++ [128512]%N ++ runes_of_ascii " emoji
+repeatCount
 //
-/// triple
-{
-    // `tick` ""quote"" 'q'
-    } MetaData	stringy {char[ 0 ]	falsey `tab	here`,falsey u
-    /// triple
-    , Header crc,
-// `tick` ""quote"" 'q'
-// `tick` ""quote"" 'q'
-trueish
-zchar, //x
-}
+// trailing space 
+, o `doc`
+, i64_ Pad , match
+repeatCount as
+roots {[
+// packet A { u8 x, }
+// " ++ [27880; 37322]%N ++ runes_of_ascii "
+42,007 ] :
+    // packet A { u8 x, }
+    i8i8 ,
+}, }
 ")).
-Eval vm_compute in ("<<<M489>>>" ++ check (runes_of_ascii "packet
-    asx { @calculatedFrom(
-""""  ) @tag( 255 )repeat
-// packet A { u8 x, }
-// trailing space 
-int16 u8x
-,
-@tag(
-    //
-    007 )
-    @tag( 0
-    /// triple
-    ) @tag( options) u
-    @lengthOf( T ),
-// `tick` ""quote"" 'q'
-//x
-} // " ++ [128512]%N ++ runes_of_ascii " emoji")).
-Eval vm_compute in ("<<<M507>>>" ++ check (runes_of_ascii "packet
-    asx { @calculatedFrom(
-""""  ) @tag( 255 )repeat
-// packet A { u8 x, }
-// trailing space 
-int16 u8x
-,
-@tag(
-    //
-    007 )
-    @tag( 0
-    /// triple
-    ) @tag( 1) u
-    @lengthOf( T T ),
-// `tick` ""quote"" 'q'
-//x
-} // " ++ [128512]%N ++ runes_of_ascii " emoji")).
-Eval vm_compute in ("<<<M438>>>" ++ check (runes_of_ascii "packet
-    asx { @calculatedFrom(
-""""  ) @tag( 255 )repeat
-// packet A { u8 x, }
-// trailing space 
-u8x int16
-,
-@tag(
-    //
-    007 )
-    @tag( 0
-    /// triple
-    ) @tag( 1) u
-    @lengthOf( T ),
-// `tick` ""quote"" 'q'
-//x
-} // " ++ [128512]%N ++ runes_of_ascii " emoji")).
-Eval vm_compute in ("<<<M461>>>" ++ check (runes_of_ascii "packet
-    asx { @calculatedFrom(
-""""  ) @tag( 255 )repeat
-// packet A { u8 x, }
-// trailing space 
-int16 u8x
-,
-@tag(
-    //
-    007 
-    @tag( 0
-    /// triple
-    ) @tag( 1) u
-    @lengthOf( T ),
-// `tick` ""quote"" 'q'
-//x
-} // " ++ [128512]%N ++ runes_of_ascii " emoji")).
-Eval vm_compute in ("<<<M1516>>>" ++ check (runes_of_ascii "options {
-    // " ++ [27880; 37322]%N ++ runes_of_ascii "
-    // " ++ [128512]%N ++ runes_of_ascii " emoji
-    string_ = false;
-    falsey = char[4294967296];
-}
-
-packet zchar {
-    match float as len {
-        [""" ++ [233]%N ++ runes_of_ascii "t" ++ [233]%N ++ runes_of_ascii """] : matchKey,
-        3 : u,
-        [4294967296, ""1""] : zchar,
-    },
-}
-
-MetaData T {
-}")).
-Eval vm_compute in ("<<<M1261>>>" ++ check (runes_of_ascii "// top
-packet // c0
-Inner {
-    // c2
-u8
-    // c3
+Eval vm_compute in ("<<<M300>>>" ++ check (runes_of_ascii "// c
+packet A// trailing space 
+{ i64_`100% of %d` // `tick` ""quote"" 'q'
+,@calculatedFrom( ""packet"") string
+Z9_ `{ , }` ,match BodyLength as
+    matchKey {
+7:MetaDataX ,
+} ,repeat	a1 { repeat Pad , }
+, pack  T, u64
+MetaDataX
+    ,	@calculatedFrom(	""a	b"" ) tag
+{ u32 body  ,
+pack @lengthOf( _x
+) `it's` , repeatCount ,// c
+repeat int32 BodyLength ,} , uint64 tag , } options{ //x
+} 	 ")).
+Eval vm_compute in ("<<<M1270>>>" ++ check (runes_of_ascii "// top
+packet
+    // c0
+B // c1a
+  // c1b
+{ u8 // c3a
+  // c3b
 a // c4a
   // c4b
 ,
     // c5
-}
-    // c6
-root
-    // c7
-packet
+} // c6a
+  // c6b
+root packet
     // c8
-P { // c10a
-  // c10b
-Inner
-    // c11
-ref_obj , u8 // c14a
-  // c14b
-x // c15
-, } // c17
-")).
-Eval vm_compute in ("<<<M1299>>>" ++ check (runes_of_ascii "// top
-root
-    // c0
-packet // c1a
-  // c1b
 P
-    // c2
-{
-    // c3
-repeat string
-    // c5
-ss // c6
-, // c7
-repeat
-    // c8
-u16 // c9
-ns
-    // c10
-, // c11a
-  // c11b
-} // c12a
-  // c12b
-")).
-Eval vm_compute in ("<<<M228>>>" ++ check (runes_of_ascii "root packet
-    //	t
-    Logon {zchar[42// packet A { u8 x, }
-]
-// c
-// 50% %s
-uint8x `it's` ,
-    //x
-    @lengthOf( Z9_	) Pad{repeat// `tick` ""quote"" 'q'
-i64_ `" ++ [28040; 24687; 31867; 22411]%N ++ runes_of_ascii "` ,
-},	}
-
-")).
-Eval vm_compute in ("<<<M719>>>" ++ check (runes_of_ascii "packet
-crc
-{repeat  Foo A  `u8 x,` ,	@lengthOf( uint8x ) string
-matchKey @lengthOf( stringy ) `a\`
-,
-    // c
-    } }
-MetaData chars{
-leftPad
-    //	t
-    crc
-`" ++ [233]%N ++ runes_of_ascii "`
-,}")).
-Eval vm_compute in ("<<<M682>>>" ++ check (runes_of_ascii "MetaData u
-    { } MetaData o
-{ float uint8x
-`100% of %d` ,repeatCount u8x, string_ leftPad
-, i32
-    Foo , int64 x `two words` , calculatedFrom
-stringy `a\` , ,
-}
-")).
-Eval vm_compute in ("<<<M588>>>" ++ check (runes_of_ascii "MetaData u
-    { } MetaData o
-{ float `100% of %d`
-uint8x ,repeatCount u8x, string_ leftPad
-, i32
-    Foo , int64 x `two words` , calculatedFrom
-stringy `a\` ,
-}
-")).
-Eval vm_compute in ("<<<M611>>>" ++ check (runes_of_ascii "MetaData u
-    { } MetaData o
-{ float uint8x
-`100% of %d` ,repeatCount u8x string_ leftPad
-, i32
-    Foo , int64 x `two words` , calculatedFrom
-stringy `a\` ,
-}
-")).
-Eval vm_compute in ("<<<M685>>>" ++ check (runes_of_ascii "MetaData u
-    { } MetaData o
-{ float uint8x
-`100% of %d` ,repeatCount u8x, string_ leftPad
-, i32
-    Foo , int64 x `two words` , calculatedFrom
-stringy `a\`")).
-Eval vm_compute in ("<<<M188>>>" ++ check (runes_of_ascii "// `tick` ""quote"" 'q'
-options
-    //	t
-    { metadata  = ""abc"" // `tick` ""quote"" 'q'
-a1  = true
-// a // b
-// " ++ [27880; 37322]%N ++ runes_of_ascii "
-; }
-MetaData
-falsey
-{ char[]
-Logon ,}")).
-Eval vm_compute in ("<<<M317>>>" ++ check (runes_of_ascii "root	packet // " ++ [27880; 37322]%N ++ runes_of_ascii "
-matchKey {	Z9_ @calculatedFrom("""") ,  } MetaData pack
-    {
-    u32 leftPad, x zchar , uint32  i8i8	, u16
-    zchar ,
-    }
-")).
-Eval vm_compute in ("<<<M965>>>" ++ check (runes_of_ascii "packet A {
-    u16 len @lengthOf(body) `100% of %s %d %v`,
-    u32 crc @calculatedFrom(""CRC32"") `100% of %s %d %v`,
-    string body,
-}")).
-Eval vm_compute in ("<<<M1759>>>" ++ check (runes_of_ascii "packet A {
-    u16 len @lengthOf(body) `a
-        b`,
-    u32 crc @calculatedFrom(""CRC32"") `a
-        b`,
-    string body,
-}")).
-Eval vm_compute in ("<<<M986>>>" ++ check (runes_of_ascii "packet A {
-    match k as n {
-        ""x\
-y"" : B,
-        [""x\
-y"", 1] : C,
-        [1,2,3,4,5,""x\
-y""] : D,
-    },
-}")).
-Eval vm_compute in ("<<<M1210>>>" ++ check (runes_of_ascii "options { } options
-// c
-{ MetaDataX = char ; } MetaData Pad { i8 metadata , string stringy , int8 As `{ , }` , }")).
-Eval vm_compute in ("<<<M1242>>>" ++ check (runes_of_ascii "options { } options { MetaDataX = char ; } MetaData Pad { i8 metadata , string stringy , int8
-// c
-As `{ , }` , }")).
-Eval vm_compute in ("<<<M960>>>" ++ check (runes_of_ascii "packet A {
-    Inner {
-        u8 x `tab
-	x`,
-        Deep {
-            u8 y `tab
-	x`,
-        },
-    },
-}")).
-Eval vm_compute in ("<<<M328>>>" ++ check (runes_of_ascii "// `tick` ""quote"" 'q'
-packet o {} options { }MetaData
-    trueish{ u64
-repeatCount`100% of %d`,
-    }")).
-Eval vm_compute in ("<<<M897>>>" ++ check (runes_of_ascii "packet A {
-  match k as n {
-    [1, 22, ""c c"", 4, 5, ""f"", 7, 8, ""i"", 10, 11] : B,
-    2 : C
-  },
-}")).
-Eval vm_compute in ("<<<M1293>>>" ++ check (runes_of_ascii "root packet
-
-    P
-{
-    u16  a ,
-u32
-    Sum
-
-    @calculatedFrom(
-	""CRC32"" ) ,
-
-    } ")).
-Eval vm_compute in ("<<<M1700>>>" ++ check (runes_of_ascii "  packet A{
-
-match
-    k
-    as
-    n
-
-    {  [	1 ]
-
-    :  B 
-,
-
-2  :  C 
-} ,
-    }
-")).
-Eval vm_compute in ("<<<M1890>>>" ++ check (runes_of_ascii "packet A {
-    Inner {
-        match k as n {
-            [1] : B,
-        },
-    },
-}")).
-Eval vm_compute in ("<<<M850>>>" ++ check (runes_of_ascii "packet A {
-  match k as n {
-    [1, 22, 007, 4, 5, 66, 7, 8] : B,
-    2 : C
-  },
-}")).
-Eval vm_compute in ("<<<M1262>>>" ++ check (runes_of_ascii "
-packet Inner	{ 
-u8	a ,
-
-} root packet P{Inner
-
-ref_obj
-	,
+    // c9
+{ u8 K // c12
+, // c13
 u8
+    // c14
+L
+    // c15
+@lengthOf( Body ) , match // c20a
+  // c20b
+K // c21a
+  // c21b
+as
+    // c22
+Body // c23
+{ 1 // c25
+: // c26a
+  // c26b
+B , // c28a
+  // c28b
+}
+    // c29
+, } ")).
+Eval vm_compute in ("<<<M198>>>" ++ check (runes_of_ascii "options {
+    rootA=i16
+    ;} MetaData len{ float64 pack `crlf
+line`
+,a1
+roots//	t
+, int16
+Header ,zchar[ 65535 ]charz , Packet//
+body `say ""hi""`
+, // `tick` ""quote"" 'q'
+repeatCount x `line1
+line2` ,
+    // packet A { u8 x, }
+    }options{ a1 =
+""`tick`"" ;	float	=	""" ++ [233]%N ++ runes_of_ascii "t" ++ [233]%N ++ runes_of_ascii """ ; Logon = zchar[
+00	]
+; Header= '0' ; }")).
+Eval vm_compute in ("<<<M1862>>>" ++ check (runes_of_ascii "
+MetaData
+    i64_  {
+int16
+u128
+,
+}
+	MetaData
+	packetx
+	{char[]T,uint16
+    a1  `a\` 
+,
+zchar[
+007 ]
 
-    x
+uint8x,
+	}
+    root
+packet	//	t
+		A  {
 
-, }
+    @leftPad
+    (
+
+    ' '
+)
+
+@tag( 255	// " ++ [27880; 37322]%N ++ runes_of_ascii "
+
+	)  @leftPad
+
+    ('\x00'
+
+) 
+repeat
+leftPad
+i64_
+	// `tick` ""quote"" 'q'
+
+  ,
+	}")).
+Eval vm_compute in ("<<<M1752>>>" ++ check (runes_of_ascii "packet 
+asx{ 
+@calculatedFrom(
+
+"""" )
+
+    @tag(	255
+
+    )  repeat  
+  // packet A { u8 x, }
+      // trailing space 
+int16	u8x
+
+,
+@tag( 
+    //
+      007	)
+	@tag( 0 
+/// triple
+
+  ) 
+@tag( 1
+    )u
+
+@lengthOf( 
+T
+
+    )
+,
+// `tick` ""quote"" 'q'
+	//x
+}
 ")).
-Eval vm_compute in ("<<<M1793>>>" ++ check (runes_of_ascii "packet A {
+Eval vm_compute in ("<<<M419>>>" ++ check (runes_of_ascii "packet
+    asx { @calculatedFrom(
+""""  ) @lengthOf( 255 )repeat
+// packet A { u8 x, }
+// trailing space 
+int16 u8x
+,
+@tag(
+    //
+    007 )
+    @tag( 0
+    /// triple
+    ) @tag( 1) u
+    @lengthOf( T ),
+// `tick` ""quote"" 'q'
+//x
+} // " ++ [128512]%N ++ runes_of_ascii " emoji")).
+Eval vm_compute in ("<<<M534>>>" ++ check (runes_of_ascii "packet
+    asx { @calculatedFrom(
+""""  ) @tag( 255 )repeat
+// packet A { u8 x, }
+// trailing space 
+int16 u8x
+,
+@tag(
+    //
+    007 )
+    @tag( 0
+    /// triple
+    ) @tag( 1| ) u
+    @lengthOf( T ),
+// `tick` ""quote"" 'q'
+//x
+} // " ++ [128512]%N ++ runes_of_ascii " emoji")).
+Eval vm_compute in ("<<<M458>>>" ++ check (runes_of_ascii "packet
+    asx { @calculatedFrom(
+""""  ) @tag( 255 )repeat
+// packet A { u8 x, }
+// trailing space 
+int16 u8x
+,
+@tag(
+    //
+    ) 007
+    @tag( 0
+    /// triple
+    ) @tag( 1) u
+    @lengthOf( T ),
+// `tick` ""quote"" 'q'
+//x
+} // " ++ [128512]%N ++ runes_of_ascii " emoji")).
+Eval vm_compute in ("<<<M506>>>" ++ check (runes_of_ascii "packet
+    asx { @calculatedFrom(
+""""  ) @tag( 255 )repeat
+// packet A { u8 x, }
+// trailing space 
+int16 u8x
+,
+@tag(
+    //
+    007 )
+    @tag( 0
+    /// triple
+    ) @tag( 1) u
+    @lengthOf(  ),
+// `tick` ""quote"" 'q'
+//x
+} // " ++ [128512]%N ++ runes_of_ascii " emoji")).
+Eval vm_compute in ("<<<M1400>>>" ++ check (runes_of_ascii "packet Sub {
+    u8 a,
+    @calculatedFrom(""CRC16"") i64 SubSum,
+}
+root packet Frame {
+    u16 MsgType,
+    u16 BodyLen @lengthOf(Body),
+    Sub Body,
+    string note,
+    @calculatedFrom(""CRC16"") i64 Checksum,
+    u8 tail,
+}
+")).
+Eval vm_compute in ("<<<M1758>>>" ++ check (runes_of_ascii "packet roots {
+    @rightPad('\x00')
+    @lengthOf(calculatedFrom)
+    asx zchar,
+    char[255] charz `" ++ [233]%N ++ runes_of_ascii "`,
+    @tag(1)
+    repeat MetaDataX,
+    repeat zchar[0] BodyLength `a\`,
+}
+
+MetaData string_ {
+}")).
+Eval vm_compute in ("<<<M337>>>" ++ check (runes_of_ascii "
+MetaData x_y_z	{ f32a tag, crc
+    chars	`doc`, calculatedFrom Packet `crlf
+line` , repeatCount
+int ,string
+    matchKey , charz trueish `" ++ [28040; 24687; 31867; 22411]%N ++ runes_of_ascii "`  , }packet Pad // trailing space 
+{
+}")).
+Eval vm_compute in ("<<<M1304>>>" ++ check (runes_of_ascii "packet A {
+    u8 a,
+}
+packet B {
+    u16 b,
+}
+root packet P {
+    u8 K1,
+    u8 K2,
+    match K1 as M1 {
+        1 : A,
+    },
+    match K2 as M2 {
+        1 : B,
+    },
+}
+")).
+Eval vm_compute in ("<<<M699>>>" ++ check (runes_of_ascii "MetaData u
+    { } MetaData o
+{ float uint8x
+`100% of %d` ,repeatCount u8x, string_ leftPad
+, i32
+    Foo , int64 x `two '1'words` , calculatedFrom
+stringy `a\` ,
+}
+")).
+Eval vm_compute in ("<<<M697>>>" ++ check (runes_of_ascii "MetaData u
+    { } MetaData o
+{ float uin\t8x
+`100% of %d` ,repeatCount u8x, string_ leftPad
+, i32
+    Foo , int64 x `two words` , calculatedFrom
+stringy `a\` ,
+}
+")).
+Eval vm_compute in ("<<<M644>>>" ++ check (runes_of_ascii "MetaData u
+    { } MetaData o
+{ float uint8x
+`100% of %d` ,repeatCount u8x, string_ leftPad
+, i32
+    Foo } int64 x `two words` , calculatedFrom
+stringy `a\` ,
+}
+")).
+Eval vm_compute in ("<<<M1725>>>" ++ check (runes_of_ascii "MetaData float {
+}
+
+packet x {
+    // 50% %s
+    // a // b
+    float @calculatedFrom(""\" ++ [233]%N ++ runes_of_ascii """),
+    uint32 body,
+}
+
+options {
+    repeatCount = float32
+}// @lengthOf(")).
+Eval vm_compute in ("<<<M547>>>" ++ check (runes_of_ascii " u
+    { } MetaData o
+{ float uint8x
+`100% of %d` ,repeatCount u8x, string_ leftPad
+, i32
+    Foo , int64 x `two words` , calculatedFrom
+stringy `a\` ,
+}
+")).
+Eval vm_compute in ("<<<M480>>>" ++ check (runes_of_ascii "packet
+    asx { @calculatedFrom(
+""""  ) @tag( 255 )repeat
+// packet A { u8 x, }
+// trailing space 
+int16 u8x
+,
+@tag(
+    //
+    007 )
+    @tag( 0")).
+Eval vm_compute in ("<<<M1969>>>" ++ check (runes_of_ascii "packet A {
     match k as n {
-        [1, 22] : B,
+        [
+            1, 22, ""c c"", 4, 5,
+            ""f"", 7, 8, ""i""
+        ] : B,
         2 : C,
     },
 }")).
-Eval vm_compute in ("<<<M795>>>" ++ check (runes_of_ascii "packet A {
+Eval vm_compute in ("<<<M1649>>>" ++ check (runes_of_ascii "packet A {
+    match k as n {
+        [
+            ""a"", ""bb"", 007, ""d"", ""e"",
+            66
+        ] : B,
+        2 : C,
+    },
+}")).
+Eval vm_compute in ("<<<M1269>>>" ++ check (runes_of_ascii "packet B {
+    u8 a,
+}
+root packet P {
+    u8 K,
+    u8 L @lengthOf(Body),
+    match K as Body {
+        1 : B,
+    },
+}
+")).
+Eval vm_compute in ("<<<M50>>>" ++ check (runes_of_ascii "
+root
+    packet //
+u {float32 BodyLength ,
+} packet u {  char[ 1]  a1
+@calculatedFrom(
+""a\""b""	) ,
+} /// triple")).
+Eval vm_compute in ("<<<M1233>>>" ++ check (runes_of_ascii "options { } options { MetaDataX = char ; } MetaData Pad { i8 metadata , // c
+string stringy , int8 As `{ , }` , }")).
+Eval vm_compute in ("<<<M283>>>" ++ check (runes_of_ascii "
+packet trueish
+    {} packet Z9_
+{  stringy
+    calculatedFrom	`say ""hi""` ,
+    u64
+Z9_ , } packet f32a { }")).
+Eval vm_compute in ("<<<M896>>>" ++ check (runes_of_ascii "packet A {
   match k as n {
-    [""a"", ""bb"", 007] : B,
+    [""a"", 22, ""c c"", 4, ""e"", 66, ""g"", 8, ""i"", 10, ""k""] : B
+    2 : C
+  },
+}")).
+Eval vm_compute in ("<<<M1546>>>" ++ check (runes_of_ascii "packet A {
+    u32 crc @calculatedFrom(""\
+        ""),
+    @calculatedFrom(""\
+        "")
+    u8 y,
+}")).
+Eval vm_compute in ("<<<M1794>>>" ++ check (runes_of_ascii "packet
+    A
+{
+u32  crc
+
+    @calculatedFrom( ""\
+""
+	)	, @calculatedFrom(  ""\
+"" 
+) u8 
+y , } ")).
+Eval vm_compute in ("<<<M384>>>" ++ check (runes_of_ascii "root packet SimpleMessage {
+    uint16 MsgType `" ++ [28040; 24687; 31867; 22411]%N ++ runes_of_ascii "`,
+    string JsonBody `Json" ++ [23383; 31526; 20018; 28040; 24687; 20307]%N ++ runes_of_ascii "`,
+}")).
+Eval vm_compute in ("<<<M1318>>>" ++ check (runes_of_ascii "
+
+  packet 
+orderItem{
+u8 
+a
+,
+    }root packet
+newOrder
+
+    {orderItem	,u8
+	x, }
+")).
+Eval vm_compute in ("<<<M813>>>" ++ check (runes_of_ascii "packet A {
+  match k as n {
+    [""a"", ""bb"", ""c c"", ""d"", ""e""] : B,
+    2 : C
+  },
+}")).
+Eval vm_compute in ("<<<M86>>>" ++ check (runes_of_ascii "MetaData	f32a // @lengthOf(
+{ // `tick` ""quote"" 'q'
+charz msg_type , } // " ++ [27880; 37322]%N)).
+Eval vm_compute in ("<<<M819>>>" ++ check (runes_of_ascii "packet A {
+  match k as n {
+    [1, 22, ""c c"", 4, 5] : B,
+    2 : C
+  },
+}")).
+Eval vm_compute in ("<<<M791>>>" ++ check (runes_of_ascii "packet A {
+  match k as n {
+    [""a"", 22, ""c c""] : B,
     2 : C
   },
 }")).
@@ -1084,56 +1147,71 @@ Eval vm_compute in ("<<<M1117>>>" ++ check (runes_of_ascii "packet A {
         // c
     },
 }")).
-Eval vm_compute in ("<<<M605>>>" ++ check (runes_of_ascii "MetaData u
-    { } MetaData o
-{ float uint8x
-`100% of %d` ,")).
+Eval vm_compute in ("<<<M1256>>>" ++ check (runes_of_ascii "
+
+  root packet
+P
+
+    {
+repeat
+
+char 
+cs , 
+u8
+	x  ,
+
+}
+
+")).
 Eval vm_compute in ("<<<M1116>>>" ++ check (runes_of_ascii "packet A {
     match k as n {
         1 : B,// c
     },
 }")).
-Eval vm_compute in ("<<<M1694>>>" ++ check (runes_of_ascii "options  {
-
-    A = 
-""// no comment"" 	 // c
-    }")).
-Eval vm_compute in ("<<<M595>>>" ++ check (runes_of_ascii "MetaData u
-    { } MetaData o
-{ float uint8x")).
-Eval vm_compute in ("<<<M1251>>>" ++ check (runes_of_ascii "root packet P {
-    char c,
-    u8 x,
-}
-")).
-Eval vm_compute in ("<<<M962>>>" ++ check (runes_of_ascii "root packet A {
-    u8 x `tab
-	x`,
+Eval vm_compute in ("<<<M1104>>>" ++ check (runes_of_ascii "packet A { B { // a
+ u8 x, // b
+ } // c
+ , // d
+ }")).
+Eval vm_compute in ("<<<M1596>>>" ++ check (runes_of_ascii "options {
+    // c
+    A = ""// no comment""
 }")).
-Eval vm_compute in ("<<<M944>>>" ++ check (runes_of_ascii "root packet A {
-    u8 x `a
-
-b`,
+Eval vm_compute in ("<<<M1734>>>" ++ check (runes_of_ascii "options {
+    A = ""// no comment""
+}// c")).
+Eval vm_compute in ("<<<M1184>>>" ++ check (runes_of_ascii "options
+// c
+{ A = ""// no comment"" }")).
+Eval vm_compute in ("<<<M1524>>>" ++ check (runes_of_ascii "packet A {
+    u8 x `d 	`,// c 	
 }")).
-Eval vm_compute in ("<<<M173>>>" ++ check (runes_of_ascii "options	{ Z9_	= ""abc""
-    ;
-}
+Eval vm_compute in ("<<<M932>>>" ++ check (runes_of_ascii "root packet A {
+    u8 x `
+`,
+}")).
+Eval vm_compute in ("<<<M1748>>>" ++ check (runes_of_ascii "
+
+  packet A{
+	} 
+    // c 	
 ")).
-Eval vm_compute in ("<<<M770>>>" ++ check (runes_of_ascii "match char[ false @lengthOf(")).
-Eval vm_compute in ("<<<M1103>>>" ++ check (runes_of_ascii "packet A { // a
- u8 x, }")).
-Eval vm_compute in ("<<<M1083>>>" ++ check (runes_of_ascii "packet A {
-}// a// b")).
-Eval vm_compute in ("<<<M1010>>>" ++ check (runes_of_ascii "packet A {
-}
-// c" ++ [133]%N)).
-Eval vm_compute in ("<<<M1174>>>" ++ check (runes_of_ascii "packet x { }
+Eval vm_compute in ("<<<M96>>>" ++ check (runes_of_ascii "// c
+MetaData o
+    { }
+")).
+Eval vm_compute in ("<<<M1131>>>" ++ check (runes_of_ascii "MetaData tag { }
 // c
 ")).
-Eval vm_compute in ("<<<M212>>>" ++ check (runes_of_ascii "options {
-    }
+Eval vm_compute in ("<<<M1006>>>" ++ check (runes_of_ascii "// c" ++ [160]%N ++ runes_of_ascii "
+packet A {
+}")).
+Eval vm_compute in ("<<<M1173>>>" ++ check (runes_of_ascii "packet x { } // c
 ")).
-Eval vm_compute in ("<<<M1824>>>" ++ check (runes_of_ascii "
-// c" ++ [8202]%N ++ runes_of_ascii "
+Eval vm_compute in ("<<<M154>>>" ++ check (runes_of_ascii "packet  i64_ { }")).
+Eval vm_compute in ("<<<M1504>>>" ++ check (runes_of_ascii "// a
+// b")).
+Eval vm_compute in ("<<<M731>>>" ++ check (runes_of_ascii "
+
+
 ")).
-Eval vm_compute in ("<<<M726>>>" ++ check (runes_of_ascii "		")).
